@@ -75,7 +75,18 @@ class Model:
         return bytes([fmt] + idb + [(num >> 8) & 0xFF, num & 0xFF])
 
     def process(self, x):
-        """returns ('silent',) | ('unspec',) | ('respond', cmd, pattern(list of int|None), exact, what)"""
+        """returns ('silent',) | ('unspec',) | ('resync',) | ('respond'|'mayrespond', cmd, pattern, exact, what)"""
+        complete = len(x) > 7 and (x[7] & 0xC8) == 0xC8   # SOM, EOM, TO: a whole request that owns its tag
+        before = (self.req, self.resp)
+        r = self.process_complete(x)
+        if r[0] == "respond" and not complete:
+            if r[4] == "set-eid-accepted":
+                self.req, self.resp = before
+                return ("resync",)
+            return ("mayrespond",) + r[1:]
+        return r
+
+    def process_complete(self, x):
         r = accepted_request(x)
         if r is None:
             return ("silent",)
@@ -84,6 +95,10 @@ class Model:
         cmd, data = r
         if cmd == 1:
             op, eid = data[0], data[1]
+            if op & 0xFC:
+                # reserved operation bits set: Set/Force by the low two bits, or none of the four
+                # operations - not fixed by C13; adopt what the context reports
+                return ("resync",)
             if op in (0, 1) and eid in (0x00, 0xFF):
                 # outside the 0x01-0xFE quantifier of C12/C13: adopt what the context reports
                 return ("resync",)
@@ -161,6 +176,9 @@ def check_model_trace(prop, events):
         if exp and exp[0] == "resync":
             m.req, m.resp = ev["er"], ev["es"]
         found = []
+        if exp and exp[0] == "mayrespond":
+            # answer optional: judged like a response if there is one, ignored if there is none
+            exp = ("respond",) + exp[1:] if ev["resp"] is not None else ("unspec",)
         exp_cmd = exp[1] if exp and exp[0] == "respond" else None
         stats["eid_checks"] += 1
         if (ev["er"], ev["es"]) != (m.req, m.resp):
